@@ -24,6 +24,7 @@ import (
 //	    | FALSY // (T)                      right side of //, the left side emits nothing truthy
 //	    | E as PATTERN | T                  after a binding (also ?// whose earlier alternatives fail)
 //	    | B | T                             after a pipe; B emits exactly once and leaves no fork
+//	    | foreach 1 as $u (.; B; T)         extract clause of a foreach over one fork-free value
 //	    | def g: ...; g | T                 local definitions (helpers, inner tail-recursive loops,
 //	                                        closures over bound variables, unused definitions calling f)
 //	    | (T)
@@ -248,7 +249,7 @@ func (g *tg) tail(depth int, guarded bool) string {
 	if depth <= 0 {
 		return g.call(guarded)
 	}
-	kinds := []string{"call", "if", "if", "elif", "split", "comma", "comma", "pipe", "pipe", "local", "local", "paren", "alt", "alt", "bind", "bind"}
+	kinds := []string{"call", "if", "if", "elif", "split", "comma", "comma", "pipe", "pipe", "local", "local", "paren", "alt", "alt", "bind", "bind", "fx"}
 	if g.pure {
 		kinds = kinds[:12]
 	}
@@ -281,6 +282,9 @@ func (g *tg) tail(depth int, guarded bool) string {
 		return "(" + g.balanced() + " | " + g.tail(depth-1, guarded) + ")"
 	case "paren":
 		return "(" + g.tail(depth-1, guarded) + ")"
+	case "fx": // extract clause of a foreach over a single, fork-free value
+		g.nv++
+		return fmt.Sprintf("(foreach %s as $u%d (.; %s; %s))", g.pick("fxgen", []string{"1", ".", "null", "\"k\""}), g.nv, g.balanced(), g.tail(depth-1, guarded))
 	case "alt":
 		if rapid.Bool().Draw(g.t, "altguard") {
 			return "(if " + g.cond() + " then empty else " + g.truthyStop() + " end) // (" + g.tail(depth-1, true) + ")"
@@ -406,6 +410,7 @@ func genTailRec(t *rapid.T) (progCase, []string) {
 	sb.WriteString(strings.ReplaceAll(cons, "X", init+" | f"))
 	n := drawN(t)
 	c := progCase{Prog: sb.String(), N: n, Mode: "tick"}
+	c.Heap = n >= 20000 && rapid.IntRange(0, 3).Draw(t, "heap") == 0
 	classes := []string{fmt.Sprintf("shape/%d", g.shape), fmt.Sprintf("tick-at/%d", g.tickAt), fmt.Sprintf("depth/%d", depth), "consumer/" + cons}
 	if g.pure {
 		classes = append(classes, "variable-free-body")
